@@ -5,7 +5,9 @@ import sys
 import time
 
 VERIF = os.path.dirname(os.path.dirname(os.path.abspath(__file__)))
-EVIDENCE_DIR = os.path.join(VERIF, "evidence")
+# TZVERIF_EVIDENCE_DIR is a developer switch (tools/try_patch.sh: scratch trees analysed in parallel);
+# registered commands never set it
+EVIDENCE_DIR = os.environ.get("TZVERIF_EVIDENCE_DIR") or os.path.join(VERIF, "evidence")
 REPLAY_DIR = os.path.join(EVIDENCE_DIR, "replay")
 KNOWN = os.path.join(VERIF, "known_findings.txt")
 
